@@ -43,7 +43,16 @@ def members(tier, sd, period=None):
         if period:
             m['period'] = period
         out.append(m)
+    # de Sitter in gauge-transformed flat slicing: a Lambda-vacuum (no matter is
+    # supplied at all, vacuum=False, Lambda = 3 H^2)
+    m = dict(family=S.PulledBack.name, seed=1000 * sd + 70, base="desitter")
+    if period:
+        m['period'] = period
+    out.append(m)
     return out
+
+
+DESITTER_LAMBDA = 3 * 0.3 ** 2
 
 
 def cases(tier, sd):
@@ -52,25 +61,31 @@ def cases(tier, sd):
     # open boundaries, interior window
     open_orders = [(2, 9), (4, 17)] if tier == "quick" else [(2, 9), (2, 13), (4, 17), (6, 25)]
     for mi, m in enumerate(members(tier, sd)):
-        vac_member = m['family'] == S.PulledBack.name
+        ds = m.get('base') == 'desitter'
+        vac_member = m['family'] == S.PulledBack.name and not ds
         for (p, n1) in open_orders:
             if tier == "thorough" and p == 6 and mi % 3:
                 continue
             lam = 0.0 if vac_member else [0.0, 0.3, -0.3][(mi + p) % 3]
+            if ds:
+                lam = DESITTER_LAMBDA
             for vac in ([True, False] if vac_member else [False]):
                 out.append(dict(member=m, order=p, n1=n1, Lambda=lam,
                                 vacuum=vac, box=box, t0=0.3, mode='open',
-                                components=bool((mi + p) % 3 == 0)))
+                                components=bool((mi + p) % 3 == 0), no_T=ds))
     # periodic members: every order, all stencils centred
     per_orders = [(6, 12), (8, 16)] if tier == "quick" else [(2, 16), (4, 12), (6, 12), (8, 16), (6, 16)]
     for mi, m in enumerate(members(tier, sd, period=2.0)):
-        vac_member = m['family'] == S.PulledBack.name
+        ds = m.get('base') == 'desitter'
+        vac_member = m['family'] == S.PulledBack.name and not ds
         for (p, n1) in per_orders:
             lam = 0.0 if vac_member else [0.3, 0.0, -0.3][(mi + p) % 3]
+            if ds:
+                lam = DESITTER_LAMBDA
             vac = vac_member and (mi + p) % 2 == 0
             out.append(dict(member=m, order=p, n1=n1, Lambda=lam,
                             vacuum=vac, box=box, t0=0.3, mode='periodic',
-                            components=bool((mi + p) % 3 == 1)))
+                            components=bool((mi + p) % 3 == 1), no_T=ds))
     return out
 
 
@@ -100,7 +115,7 @@ def evaluate(spec, g, keys, extra_inputs=(), rel_kw=None):
         for i, c in enumerate('xyz'):
             inp['beta' + c] = ex['betaup3'][i]
             inp['dtbeta' + c] = ex['dtbetaup3'][i]
-    if not spec['vacuum']:
+    if not spec['vacuum'] and not spec.get('no_T'):
         inp['Tdown4'] = ex['Tdown4']
     for k in extra_inputs:
         inp[k] = ex[k]
@@ -115,9 +130,15 @@ def _run_case(spec):
     res = common.new_result(spec)
     grids, _ = engine.grid_plan(spec)
     vals = []
+    # st_Ricci_down3 first (matter route: Tdown4, rho0, ... get cached on the
+    # way) or the Riemann tensor first (nothing of the matter sector cached yet)
+    order = list(ALGEBRAIC + DIFFERENTIAL)
+    if (spec['member'].get('seed', 0) + spec['order'] // 2 + int(bool(spec.get('no_T')))) % 2:
+        order = ['st_Riemann_down4', 'Kretschmann'] + [k for k in order
+                                                       if k not in ('st_Riemann_down4', 'Kretschmann')]
     for g in grids:
         ex, rel = evaluate(spec, g, ALGEBRAIC + DIFFERENTIAL)
-        vals.append((ex, engine.eval_keys(rel, ALGEBRAIC + DIFFERENTIAL)))
+        vals.append((ex, engine.eval_keys(rel, order)))
         del rel
     ex2 = vals[1][0]
     hint = float(np.abs(ex2['st_Gamma_udd4']).max() ** 2
